@@ -1,5 +1,5 @@
 """C12 - The latched key value never leaves the key store."""
-import base64, json, os, re, stat, time
+import base64, json, os, re, shutil, stat, time
 from .. import common, sandbox, wsmock, realagent, mockhost, rawhttp, standin, shim as shimmod, gen_rbac, hostdocs
 
 NEEDS_AGENT = True
@@ -318,7 +318,22 @@ def pipeline(args, scratch):
         t0 = time.time()
         while ws.latched is None and time.time() - t0 < 10:
             time.sleep(0.05)
+        # the third subsystem reports ready: provisioning completes with every later key-latch report and its state files are written (by
+        # default into the key folder, which has to stay root-only all the same)
+        sh.call("prov", what="redirector_ready")
+
+        def key_dir_mode(when):
+            try:
+                st = os.stat(KEY_DIR)
+            except OSError:
+                return
+            res["counts"]["key_directory_mode_checks"] = res["counts"].get("key_directory_mode_checks", 0) + 1
+            if stat.S_IMODE(st.st_mode) != 0o700 or st.st_uid != 0:
+                if not any(v[0] == "key-directory-not-root-only" for v in res["violations"]):
+                    res["violations"].append(["key-directory-not-root-only", {"mode": oct(stat.S_IMODE(st.st_mode)), "uid": st.st_uid, "when": when,
+                                                                            "files": sorted(os.listdir(KEY_DIR))}])
         for round_ in range(args["rounds"]):
+            key_dir_mode("round %d (provisioning completed, state files written)" % round_)
             for g in ws.latched_history:
                 taint.secrets[g] = ws.issued[g]
             for k in range(5):
@@ -348,6 +363,16 @@ def pipeline(args, scratch):
                 ws.rules = {"wireserver": gen_rbac.gen_doc(r, dup_ok=False, mode="audit"), "imds": gen_rbac.gen_doc(r, dup_ok=False, mode="audit")}
                 ws.rules["wireserver"]["id"] = "w-%d" % round_; ws.rules["imds"]["id"] = "i-%d" % round_
             time.sleep(0.25)
+        # the key folder vanishes while the service runs (clean-up script, restore), then the host wants a new key latched: wherever a key file
+        # appears after that, it is in a root-only folder
+        if args["shard"] % 2 == 0:
+            shutil.rmtree(KEY_DIR, ignore_errors=True)
+            k = ws.new_key(); ws.latched = k["guid"]; ws.issued.pop(k["guid"])
+            time.sleep(1.0)
+            for g in ws.latched_history:
+                taint.secrets[g] = ws.issued[g]
+            key_dir_mode("after the key folder was removed under the running service and a new key was requested")
+            res["counts"]["key_folder_vanished_histories"] = 1
         # clients that reset the connection right after (or while) sending a request: the handler is cancelled at arbitrary points
         import socket as _s, struct as _st
         aborted = 0
